@@ -211,8 +211,18 @@ def plans_for(scens_named, want_env, budget, rng, res, tag):
     lines = []
     for (name, s, x), rr in zip(cases, r):
         lines.append(("do %s (%s)" % (s, " ".join(x)), rr["plan"], rr["obs"], name))
+        if "/callback-" in name and (" prog err)" in s or " prof err)" in s):
+            # the same failing telemetry callback, its error wrapping a *ch.Exception met elsewhere (a nested query
+            # on another connection): for the model a failing callback is a failing callback (model_case)
+            sx = s.replace(" prog err)", " prog errx)").replace(" prof err)", " prof errx)")
+            lines.append(("do %s (%s)" % (sx, " ".join(x)), rr["plan"], rr["obs"], name + "-wrapping-exception"))
     ex[tag + "_explore_s"] = round(ex.get(tag + "_explore_s", 0) + time.time() - t0, 1)
     return lines
+
+
+def model_case(c):
+    """the model's reading of a case line: the dynamic type of a callback's error is not part of the model"""
+    return c.replace(" errx)", " err)")
 
 
 def run_gated(res, fam, lines, seed, wd, free_n, what):
@@ -231,7 +241,7 @@ def run_gated(res, fam, lines, seed, wd, free_n, what):
     if len(gated) != len(lines):
         raise C.Infra("harness %s ran %d of %d plans" % (fam, len(gated), len(lines)))
     # the model is asked again through its transcript interface (command do), independently of the exploration
-    model = C.run_eval("Do", [r[0] for r in gated])
+    model = C.run_eval("Do", [model_case(r[0]) for r in gated])
     for (case, plan, obs, name), m in zip(lines, model):
         if obs != m:
             res.tie_broken("model", "ex and do disagree on %s" % case)
@@ -276,7 +286,7 @@ def run_gated(res, fam, lines, seed, wd, free_n, what):
         res.samples = [{"case": r[0], "plan followed by the harness": l[1], "implementation": r[1], "model": m, "oracle": r[2]}
                        for r, m, l in pick]
         res.samples += [{"case": r[0], "oracle": r[2]} for r in free[:2]]
-    ok, ns, slog = C.coq_sample("GlueDo", C.sample_pairs(gated, model, seed, k=10), wd, fam)
+    ok, ns, slog = C.coq_sample("GlueDo", [(model_case(c), m) for c, m in C.sample_pairs(gated, model, seed, k=10)], wd, fam)
     res.extra["in_coq_sample"] = res.extra.get("in_coq_sample", 0) + ns
     if not ok:
         res.tie_broken("extraction", "vm_compute inside Coq disagrees with the extracted evaluator:\n" + slog)
@@ -349,7 +359,7 @@ def replay_cases(res, path, fam, want_env_label):
     wd = C.workdir(res.pid)
     lines = []
     if do_cases:
-        out = C.run_eval("Do", ["ex" + c[2:] for c in do_cases])
+        out = C.run_eval("Do", ["ex" + model_case(c)[2:] for c in do_cases])
         for c, o in zip(do_cases, out):
             parts = o.split(" | ")
             lines.append((c, parts[2][1:-1], parts[3][1:-1], "replay"))
